@@ -32,7 +32,7 @@ const verif::Info verif_info = {
     "strings, buffers, string_streams (append, <<, truncate, to_string) and from_int/from_double. Half of the cases run the same program in every thread. Oracle: ThreadSanitizer "
     "(any report = violation) and per-thread FNV digest of every returned value == digest of the same program executed alone before the threads start. Non-trivial: >= 2 threads "
     "execute >= 1 operation on the same shared object or the same formatting/codec/conversion function.",
-    false, "exploration"};
+    true, "exploration"};
 
 // Per-thread allocation faults (the faulted round below): the n-th operator new / new[] called by code compiled into this translation
 // unit - i.e. by string_theory, which is header-only - throws std::bad_alloc in THIS thread.  The ThreadSanitizer runtime defines the
@@ -295,6 +295,57 @@ int verif_case(const uint8_t *data, size_t size, Case &c) {
     return verif::CASE_OK;
 }
 
-long verif_enumerate(int, int, int, verif::EnumReport &r) { return r.evaluations; }
+// Cold-start storm: many fresh processes (fork; the parent never calls the library), each running ONE same-program case with 8 threads whose
+// first operations coincide, every operation kind taking its turn as the first one.  State that is built on first use with atomics only -
+// invisible to the race detector - but in more than one step (a table first cleared, then filled; a flag published before the data) gives
+// wrong results only to a thread that arrives inside that window of a few hundred nanoseconds: the digest comparison finds it, and only
+// a fresh process can (after the first use the window is gone for the life of the process).
+#include <sys/wait.h>
+#include <unistd.h>
+std::vector<uint8_t> storm_case(unsigned i) {
+    const Family &f = family();
+    const unsigned nk = f.n ? (unsigned)f.n : (unsigned)NKINDS;
+    std::vector<uint8_t> b;
+    b.push_back(6); b.push_back(1);                                        // 8 threads, the same program in all of them
+    for (int p = 0; p < 30; p++) b.push_back((uint8_t)((i * 7 + p * 13 + (i >> 3)) & 0xFF));   // the pool
+    const unsigned nops = nk < 12 ? 12 : nk;
+    b.push_back((uint8_t)(nops - 5));
+    for (unsigned j = 0; j < nops; j++) { b.push_back((uint8_t)((i + j) % nk)); b.push_back((uint8_t)(i * 3 + j)); b.push_back((uint8_t)(i * 5 + j * 11 + (i >> 4))); b.push_back((uint8_t)(i + j * 3 + (i >> 2))); }
+    return b;
+}
+long verif_enumerate(int shard, int nshards, int tier, verif::EnumReport &r) {
+    const unsigned total = (getenv("VERIF_FAMILY") ? 1 : 2) * (tier ? 3200u : 800u);      // as a stage of another property's check: half as many
+    for (unsigned i = (unsigned)shard; i < total; i += (unsigned)nshards) {
+        std::vector<uint8_t> bytes = storm_case(i);
+        verif::set_current(bytes.data(), bytes.size());
+        int fds[2]; if (pipe(fds) != 0) break;
+        pid_t pid = fork();
+        if (pid < 0) { close(fds[0]); close(fds[1]); break; }
+        if (pid == 0) {
+            close(fds[0]);
+            Case c; int v = verif::CASE_OK;
+            try { v = verif_case(bytes.data(), bytes.size(), c); } catch (...) { v = verif::CASE_VIOLATION; c.failure = "exception escaped the case"; }
+            if (v == verif::CASE_VIOLATION) { ssize_t w = write(fds[1], c.failure.data(), c.failure.size()); (void)w; }
+            close(fds[1]);
+            _exit(v == verif::CASE_VIOLATION ? 1 : 0);
+        }
+        close(fds[1]);
+        std::string why; char buf[512]; ssize_t n;
+        while ((n = read(fds[0], buf, sizeof buf)) > 0) why.append(buf, (size_t)n);
+        close(fds[0]);
+        int st = 0; waitpid(pid, &st, 0);
+        r.evaluations++; r.nontrivial++;
+        const bool bad = !(WIFEXITED(st) && WEXITSTATUS(st) == 0);
+        if (bad) {
+            if (why.empty()) why = WIFSIGNALED(st) ? "the fresh process was killed by signal " + std::to_string(WTERMSIG(st)) : "the fresh process ended with status " + std::to_string(WEXITSTATUS(st)) + " (66 = ThreadSanitizer report, see its output above)";
+            r.failure = "cold start (first use of the library in a fresh process by 8 threads at once): " + why;
+            r.failing_case = "C20 cold-start case " + std::to_string(i);
+            r.failing_bytes = bytes;
+            return r.evaluations;
+        }
+    }
+    if (shard == 0) r.exhausted.push_back(std::string("cold-start storm: ") + std::to_string(total) + " fresh processes, 8 threads, every operation kind taking its turn as the first operation");
+    return r.evaluations;
+}
 
 void verif_corpus(std::vector<std::vector<uint8_t>> &out) { out.push_back({3, 1, 5, 1, 2}); }
